@@ -184,8 +184,8 @@ def call (b : List Stmt) (s : Store) (x : Ref) (inplace : Bool) (stale : Bool :=
   else let p := copyObj s x stale; (exec p.1 p.2 b, p.2)
 
 /-- The defective shape: statements `pre` run on the input *before* the copy statement. -/
-def badCall (pre b : List Stmt) (s : Store) (x : Ref) (inplace : Bool) : Store × Ref :=
-  call b (exec s x pre) x inplace
+def badCall (pre b : List Stmt) (s : Store) (x : Ref) (inplace : Bool) (stale : Bool := false) : Store × Ref :=
+  call b (exec s x pre) x inplace stale
 
 /-- `@lock_neuron`: `args[0]._lock += 1`; call; `finally: args[0]._lock -= 1` (on the *input* object). -/
 def Store.bumpLock (s : Store) (x : Ref) (up : Bool) : Store :=
